@@ -326,6 +326,13 @@ func driveC13(c *h.Ctx) error {
 		"other failure, no payload, foreign payload, bad batch count) x {not enforced, enforced 1.2}; real kmipclient.DialContext over net.Pipe; " +
 		"a case is non-trivial when client and server sets are not both the full set; distinct by (client,server,behaviour,enforced)")
 	var cases []c13case
+	if m, _ := c.Replay["case"].(map[string]any); c.Replay == nil || (m != nil && m["leg"] != nil) {
+		c13SuccessiveClients(c)
+		c13DroppedDuringDiscovery(c)
+		if c.Replay != nil {
+			return c.WriteCases("cases_C13.v", "", 0)
+		}
+	}
 	if c.Replay != nil {
 		m, _ := c.Replay["case"].(map[string]any)
 		cs := c13case{}
